@@ -19,6 +19,7 @@ PAIRS = [
     ('C14', 'unifex::linuxos::io_epoll_context::read_sender::operation', 'unifex::linuxos::io_epoll_context::write_sender::operation', {'on_read_complete': 'on_write_complete'}),
     ('C14', 'unifex::linuxos::io_uring_context::read_sender::operation', 'unifex::linuxos::io_uring_context::write_sender::operation', {'on_read_complete': 'on_write_complete'}),
     ('C14', 'unifex::linuxos::io_uring_context::read_sender::operation', 'unifex::linuxos::io_uring_context::accept_sender::operation', {'on_read_complete': 'on_accept'}),
+    ('C07', 'unifex::linuxos::io_epoll_context::schedule_at_sender::operation', 'unifex::linuxos::io_uring_context::schedule_at_sender::operation', {}),
     ('C07', 'unifex::_timed_single_thread_context::_after_op::type', 'unifex::_timed_single_thread_context::_at_op::type', {}),
     ('C07', 'unifex::_thread_unsafe_event_loop::_after_op::type', 'unifex::_thread_unsafe_event_loop::_at_op::type', {}),
     ('C01', 'unifex::_when_all::_element_receiver::type', 'unifex::_when_all_range::_element_receiver::type', {}),
